@@ -152,6 +152,20 @@ def run_2d(aa, v, m, salt):
         v.ok(dom.exact(np.asarray(ed.derive_indexes.masked_slim), np.flatnonzero(me.ravel())), "masked_slim:edited-mask")
     v.ok(dom.exact(np.asarray(mask.derive_indexes.native_for_slim), ref_nfs), "native_for_slim:source-changed-by-derivation")
 
+    # ---- the mask may be handed over in any memory layout (Fortran order, transposed view, strided view)
+    if h > 1 and w > 1:
+        lab = (1.0 + np.arange(n, dtype=float)).reshape(h, w)
+        big = np.ones((h, 2 * w), dtype=bool)
+        big[:, ::2] = m
+        for lname, marr in (("fortran", np.asfortranarray(m)), ("transposed-view", np.ascontiguousarray(m.T).T), ("strided-view", big[:, ::2])):
+            mk = aa.Mask2D(mask=marr, pixel_scales=(1.0, 2.0), origin=(0.5, -1.0))
+            v.ok(dom.exact(np.asarray(mk.derive_indexes.native_for_slim), ref_nfs), "native_for_slim:memory-layout", lambda: "%s mask" % lname)
+            al = aa.Array2D(values=lab[u].copy(), mask=mk)
+            v.ok(dom.exact(_arr(al.native), np.where(m, 0.0, lab)), "Array2D.native:memory-layout", lambda: "%s mask: %s" % (lname, _arr(al.native).tolist()))
+            v.ok(dom.exact(_arr(aa.Array2D(values=np.asfortranarray(lab), mask=mk).slim), lab[u]), "Array2D.slim:memory-layout", lambda: "%s mask, fortran values" % lname)
+            gl = aa.Grid2D(values=np.stack([lab[u], -lab[u]], axis=-1), mask=mk)
+            v.ok(dom.exact(_arr(gl.native)[:, :, 0], np.where(m, 0.0, lab)), "Grid2D.native:memory-layout", lambda: "%s mask" % lname)
+
     for name, vals1 in labellings(n, salt):
         vals = vals1.reshape(h, w)
         garbage = np.where(m, 77.0 + np.arange(n).reshape(h, w), vals)
@@ -171,9 +185,20 @@ def run_2d(aa, v, m, salt):
                 v.ok(dom.exact(_arr(a.native.slim.native), ref_nat), "Array2D.native-slim-native", tag)
                 v.ok(a.native.shape == (h, w) and a.slim.shape == (int(u.sum()),), "Array2D.shapes", tag)
                 v.ok(dom.exact(inp, keep), "Array2D.input-mutated", tag)
-                b = _arr(a.binned) if hasattr(a, "binned") else None
                 st = _arr(a)
                 v.ok(dom.exact(st, ref_nat if store_native else ref_slim), "Array2D.stored-form", tag)
+                if name == "inj":
+                    # a structure derived by arithmetic publishes slim/native forms of ITS OWN values, masked entries zero
+                    a10 = a + 10.0
+                    v.ok(dom.exact(_arr(a10.slim), ref_slim + 10.0), "Array2D.slim:after-arithmetic", tag)
+                    v.ok(dom.exact(_arr(a10.native), np.where(m, 0.0, vals + 10.0)), "Array2D.native:after-arithmetic",
+                         lambda: "%s (a+10).native=%s" % (tag, _arr(a10.native).tolist()))
+                    v.ok(dom.exact(_arr(a.slim), ref_slim) and dom.exact(_arr(a.native), ref_nat), "Array2D:source-changed-by-arithmetic", tag)
+        if name == "inj":
+            ask = aa.Array2D(values=garbage.copy(), mask=mask, store_native=True, skip_mask=True)
+            v.ok(dom.exact(_arr(ask.slim), ref_slim), "Array2D.slim:skip_mask", lambda: "%s" % _arr(ask.slim).tolist())
+            v.ok(dom.exact(_arr(ask.native), ref_nat), "Array2D.native:skip_mask", lambda: "store_native=True, skip_mask=True: native=%s" % _arr(ask.native).tolist())
+            v.ok(dom.exact(_arr(ask.slim.native), ref_nat), "Array2D.slim.native:skip_mask")
 
         # util-level functions (the anchored mechanisms)
         s_u = aa.util.array_2d.array_2d_slim_from(array_2d_native=garbage.copy(), mask_2d=m)
